@@ -312,6 +312,11 @@ func (e *c07env) conn(stream []byte, desc string) string {
 		decision = "web"
 	case "peer:close":
 		decision = "close"
+		if tr != "" {
+			// "every other first packet is handled as ordinary web traffic": a COMPLETE first packet was closed on
+			e.c.o.V("C07 complete-packet-not-relayed", map[string]any{"case": desc, "transport": tr, "first_packet": hx(pkt),
+				"server_time_ns": e.cur.UnixNano(), "server_private_key": hx(e.keys.priv[:]), "decision": "connection closed, nothing relayed"})
+		}
 	case "return":
 		decision = "stall"
 	default:
@@ -506,7 +511,7 @@ func c07(c *ctx) {
 		pk := e.packet(r, f.tr, f.br, byp, uint32(40+fi), "openvpn", byte(fi%4), fi%2 == 0, T.Add(time.Duration(r.intn(300)-150)*time.Second), nil)
 		nbits := len(pk.pkt) * 8
 		var bits []int
-		if c.thorough() && (fi == 1 || fi == 3) {
+		if c.thorough() {
 			for b := 0; b < nbits; b++ {
 				bits = append(bits, b)
 			}
